@@ -419,8 +419,9 @@ func (s neverMatchSelector) Match(n *html.Node) bool {
 	return false
 }
 
+// these are pseudo-classes, and weigh as such
 func (s neverMatchSelector) Specificity() Specificity {
-	return Specificity{0, 0, 0}
+	return Specificity{0, 1, 0}
 }
 
 func (c neverMatchSelector) PseudoElement() string {
